@@ -248,6 +248,7 @@ func (s *Store[H]) GetByHeight(ctx context.Context, height uint64) (H, error) {
 	if h, err := s.getByHeight(ctx, height); err == nil {
 		return h, nil
 	}
+	verifPoint(ctx, "gbh.afterLookup", height)
 
 	// if the requested 'height' was not yet published
 	// we subscribe to it
@@ -449,12 +450,15 @@ func (s *Store[H]) flushLoop(ctx context.Context) {
 		s.ensureInit(headers)
 		// add headers to the pending and ensure they are accessible
 		s.pending.Append(headers...)
+		verifPoint(ctx, "flush.pendingAppended")
 		// always inform heightSub about new headers seen.
 		s.heightSub.Notify(getHeights(headers...)...)
+		verifPoint(ctx, "flush.notified")
 		// advance head and tail if we don't have gaps.
 		// TODO(@Wondertan): Beware of the performance penalty of this approach, which always makes a at least one
 		// datastore lookup for both Tail and Head.
 		s.advanceHead(ctx)
+		verifPoint(ctx, "flush.headAdvanced")
 		s.recedeTail(ctx)
 		// don't flush and continue if pending batch is not grown enough,
 		// and Store is not stopping(headers == nil)
